@@ -541,10 +541,13 @@ func (s *storage) runSizeLimiter() {
 		s.logger.Infof("Read access times of %v files in %v", len(withAccessTime), time.Now().Sub(t))
 		t = time.Now()
 		for n, i := range withAccessTime {
-			if _, onDisk := s.withoutAccessTime[n]; !onDisk {
+			onDisk, found := s.withoutAccessTime[n]
+			if !found {
 				// logged before the entry was removed: nothing to account for or to purge
 				continue
 			}
+			// the logged size may predate a refill or a revalidation of the entry
+			i.sizeKilobytes = onDisk.sizeKilobytes
 			s.withAccessTime[n] = i
 			delete(s.withoutAccessTime, n)
 		}
